@@ -66,6 +66,15 @@ def main():
             if r.returncode == 1 and 'VIOLATION property=' + m['prop'] in r.stdout:
                 results.append((m, 'CAUGHT', first, dt))
             elif r.returncode == 3:
+                # keep whatever the check left for diagnosis (goroutine dumps of stalled batches, child stderr)
+                keep = os.path.join(VERIF, '.build', 'mutant-dumps', m['prop'] + '-' + m['name'])
+                src = os.path.join(out, '.build', m['prop'])
+                if os.path.isdir(src):
+                    shutil.rmtree(keep, ignore_errors=True)
+                    os.makedirs(keep, exist_ok=True)
+                    for fn in os.listdir(src):
+                        if fn.endswith('.txt') or fn.endswith('.stderr') or fn.endswith('.log'):
+                            shutil.copy(os.path.join(src, fn), keep)
                 inc = [l for l in lines if l.startswith('INCONCLUSIVE')][:1]
                 results.append((m, 'INCONCLUSIVE', (inc or [''])[0][:220] + r.stderr[-200:], dt))
             else:
